@@ -773,6 +773,12 @@ def m_str_rstrip(eng, recv, n, st):
     return Val(eng.uf("rstrip", [STR], STR)(recv.t), STR)
 
 
+def m_str_replace(eng, recv, n, st):
+    a = eng.ev(n.args[0], st)
+    b = eng.ev(n.args[1], st)
+    return Val(eng.uf("str_replace", [STR, STR, STR], STR)(recv.t, a.t, b.t), STR)
+
+
 def m_str_isdigit(eng, recv, n, st):
     return Val(eng.uf("str_isdigit", [STR], BOOL)(recv.t), BOOL)
 
@@ -835,7 +841,7 @@ def m_linesink_write(eng, recv, n, st):
 
 METHODS = {
     ("ObjT", "write"): m_linesink_write,
-    ("ListT", "write"): m_sink_write, ("ListT", "put"): m_sink_write, ("ListT", "tell"): m_sink_tell, ("StrT", "rstrip"): m_str_rstrip, ("StrT", "isdigit"): m_str_isdigit,
+    ("ListT", "write"): m_sink_write, ("ListT", "put"): m_sink_write, ("ListT", "tell"): m_sink_tell, ("StrT", "rstrip"): m_str_rstrip, ("StrT", "isdigit"): m_str_isdigit, ("StrT", "replace"): m_str_replace,
     ("StrT", "decode"): m_str_decode, ("StrT", "split"): m_str_split_tab,
     ("StrT", "startswith"): b_startswith,
     ("ListT", "append"): m_list_append, ("EmptyListT", "append"): m_list_append, ("ListT", "reverse"): m_list_reverse,
@@ -968,6 +974,10 @@ def lib_format(eng, n, st):
         args = [Val(r.ty.get(r.t, i), r.ty.elts[i]) for i in range(len(r.ty.elts))]
     else:
         args = [r]
+    return format_value(eng, fmt, args, st, n)
+
+
+def format_value(eng, fmt, args, st, n):
     eng.assumptions_used.add("assumed: " + ASSUMED["format"])
     leading = fmt.startswith("\t")
     fs = format_fields(eng, fmt[1:] if leading else fmt, args, st, n)
